@@ -363,12 +363,16 @@ def run_lace(args, stdin=b"", cwd=None, timeout=20, env_extra=None):
     env = dict(os.environ)
     env["NO_COLOR"] = "1"
     env.update(env_extra or {})
-    try:
-        r = subprocess.run([LACE_BIN] + [str(a) for a in args], input=stdin, stdout=subprocess.PIPE, stderr=subprocess.PIPE,
-                           cwd=cwd or WORK, timeout=timeout, env=env)
-        return r.returncode, r.stdout, r.stderr
-    except subprocess.TimeoutExpired:
-        return -1, b"", b"timeout"
+    # a loaded machine must not turn into a verdict: a run that exceeds the limit is repeated once with a limit twelve
+    # times longer; only a run that is still going then counts as "does not terminate" (code -1)
+    for limit in (timeout, timeout * 12):
+        try:
+            r = subprocess.run([LACE_BIN] + [str(a) for a in args], input=stdin, stdout=subprocess.PIPE, stderr=subprocess.PIPE,
+                               cwd=cwd or WORK, timeout=limit, env=env)
+            return r.returncode, r.stdout, r.stderr
+        except subprocess.TimeoutExpired:
+            continue
+    return -1, b"", b"timeout"
 
 
 def chars(s):
